@@ -64,6 +64,7 @@ def prep_rotors(run, rotors):
     from spherical import wigner as W
     lines = [f"prep {' '.join(fbits(x) for x in R)}" for _, R in rotors]
     out = run.driver(lines)
+    gout = run.driver([f"geneuler {' '.join(fbits(x) for x in R)}" for _, R in rotors])
     res = {}
     if out is None:
         run.corr_break("corr:euler", "driver failed")
@@ -77,6 +78,15 @@ def prep_rotors(run, rotors):
         if not ok:
             run.corr_break("corr:euler", {"R": R, "model": t[:6], "impl": arr_bits(z)})
         res[R] = {"z": z, "za_rot": complex(tofloat(t[6]), tofloat(t[7])), "zg_rot": complex(tofloat(t[8]), tofloat(t[9])), "ok": ok}
+    if gout is None:
+        run.corr_break("corr:euler-generated", "driver failed")
+    else:
+        for (lab, R), o in zip(rotors, gout):
+            z = res[R]["z"]
+            okg = parse_bits(o) == arr_bits(z)
+            run.corr_case("euler-phases-generated-kernel", R, lab, {"R": R, "model": "generated"} if okg else None)
+            if not okg:
+                run.corr_break("corr:euler-generated", {"R": R, "generated": parse_bits(o), "impl": arr_bits(z)})
     return res
 
 
